@@ -22,12 +22,16 @@ RULE = ('parse: grammar-directed URLs (scheme x userinfo x host kind {reg-name, 
         '(url, default_scheme, encoding)')
 TRUSTED = list(uc.TRUSTED_COMMON)
 ASSUMPTIONS = ['"normalising an already normalised URL" re-parses the normal form with the default arguments '
-               '(default_scheme http, encoding utf-8), as the crawler does with URLs from its table',
-               'document encodings are ASCII-compatible stateless codecs (utf-8, latin-1, ascii, cp1252, shift_jis, '
-               'koi8-r, gbk, euc-kr, big5); see notes/C10.md for utf-16']
-UNPROVED = ['C10_full (composed norm_idem / norm_reparse for every accepted string): proved per component '
-            '(see lean/obligations/C10.json), the split-back of the reassembled string is not yet a theorem',
-            'norm_equiv for IPv6 notation and IDNA mapping: parameters of the model']
+               '(default_scheme http, encoding utf-8), as the crawler does with URLs from its table; the same-encoding '
+               're-parse is checked too (known finding for user info)',
+               'document encodings: utf-8, latin-1, ascii, cp1252, shift_jis, koi8-r, gbk, euc-kr, big5 (character-wise, '
+               'ASCII-transparent) and utf-16, utf-16-le, utf-16-be, utf-32 (encoded as UTF-8 by the repaired code); stateful '
+               '7-bit codecs (iso-2022-*, hz, utf-7) are not generated: outside the SegSafe hypothesis, not claimed']
+UNPROVED = ['norm_equiv as one composed theorem (equal normal form for all spellings of one URL): proved per component '
+            '(ipv4_normal_form_fixed: all IPv4 spellings; flatten_clean: dot/empty segments; upperPct_*: escape case; '
+            'scheme_lower/hostname_lower_ascii: case; default_port_elided/nondefault_port_kept: port), checked whole by the oracle',
+            'IPv6 text parsing, IDNA ToASCII of non-ASCII hosts, urllib.parse.unquote and str.lower of non-ASCII text are parameters '
+            'of the model; the theorems state their hypotheses (ReparseParams, V6Params, PrintParams) and the harness monitors them']
 
 
 def equivalence(ctx, wu, spec, cases):
@@ -74,6 +78,8 @@ def gen_cases(ctx, wu, rng, n_spec, n_seed, n_mal):
     for _ in range(n_spec):
         spec = uc.Spec(rng)
         ds, encoding = uc.pick_config(rng)
+        if spec.user is not None and rng.random() < 0.35:
+            encoding = rng.choice(['latin-1', 'shift_jis', 'cp1252', 'utf-8'])
         if encoding != 'utf-8':
             ds = 'http'
         g = [uc.Case(spec.render(rng, canonical=True), ds, encoding, 'spec-canonical'),
